@@ -64,6 +64,14 @@ CHECKS = {
    tech="PathSyntax.tla transcribes the path renderer and the JIT parser state machine; TLC model-checks the round trip on it and validates the real renderer, parse_value_path / parse_target_path / string conversions and the VRL compiler's query paths against it",
    text="Model level: TLC checks on the transcribed serialize_field/renderer and the 11-state JIT parser that every path of 1-2 segments over hostile field strings (quotes, backslashes, dots, spaces, brackets, non-ASCII, empty) and positive/negative/multi-digit indices survives Render -> Parse, with either target prefix (26406 paths, exhaustive). Implementation level: the same paths (plus triples) go through the real String::from(&OwnedValuePath), parse_value_path, OwnedTargetPath display + parse_target_path with both prefixes and the TryFrom<String> conversions (R1); every text of length <= 4 (thorough 5) over {. a - [ ] 0 1 \" \\ @ % space} plus seeded longer ones goes through parse_value_path, parse_target_path and - as a query expression - the real VRL compiler, whose compiled path is read from ProgramInfo (R2: when both accept, same prefix and segments). Differences between the transcription and the code are reported as divergences (none on the pinned tree).",
    note="trusted: character-sequence transport of texts and fields; the bounded alphabets listed in GenPaths.tla"),
+ "C10": dict(engine="C", cat="exploration", design="6/C10",
+   tech="TLC-defined operand pools; the real operators run through compiled programs; TLC evaluates trichotomy/consistency from the six comparison results and checks them against limb equality / limb order / IEEE-754 bit-field order / bytewise order computed in Ops.tla",
+   text="GenOps.tla defines edge pools for every comparable kind (22 integers around 0, 2^31, 2^53, MIN, MAX; 19 floats incl. signed zeros, subnormals, infinities, 2^53 and extremes; byte strings incl. empty, prefix pairs, 0x00 and 0xff; timestamps) - all pairs inside each pool, all integer x float pairs, structured/null/boolean values, plus seeded random pairs. Each pair is fed to the ten compiled programs `.l OP .r`; TLC checks on the recorded results: exactly one of <, ==, > ; != is the negation of == ; <= / >= agree; integer == is limb equality; < agrees with the signed limb order (integers), the sign/exponent/mantissa order (floats), bytewise lexicographic order (strings), nanosecond order (timestamps); mixed integer/float == equals the float comparison of the converted integer; structural equality for arrays/objects.",
+   note="trusted: Ops.tla's limb arithmetic (self-tested by ASSUMEs in GenOps.tla) and IEEE-754 field decoding; the harness' operand encoding; seeded random pairs beyond the pools are a sample"),
+ "C11": dict(engine="C", cat="exploration", design="6/C11",
+   tech="same runs as C10; TLC checks +,-,* on integers against 64-bit wrapping limb arithmetic (ripple-carry / schoolbook on 8-bit limbs), / rules, mixed operations bit-for-bit against the operation on the converted integer, string + and *, and the absence of NaN results",
+   text="On the same operand pairs: integer +, -, * must equal two's-complement wrapping arithmetic computed by TLC on limbs; / always yields a float and fails exactly when the divisor is integer 0 or float +-0; every operation with at least one float (and integer /) must be bit-identical to the same operation on the integer converted to float (executed by the same runtime - this is the statement's own definition, so no float model is needed); string + string concatenates, null acts as the empty string, string * n repeats max(n,0) times; no recorded float result is NaN (an error must be recorded instead).",
+   note="trusted: as C10; float arithmetic itself (rounding) is not modelled - only its consistency with the conversion rule and the NaN rule"),
 }
 
 NA = {
@@ -118,6 +126,9 @@ def main():
             {"name": "B", "path": "/verif/spec/Values.tla /verif/spec/Kinds.tla /verif/spec/GenValues.tla /verif/spec/GenKinds.tla /verif/spec/TraceValues.tla /verif/spec/TraceKinds.tla /verif/lib/engine_b.py /verif/harness/src/algebra.rs",
              "serves_properties": [p for p in ids if CHECKS.get(p, {}).get("engine") == "B"],
              "kind_free_text": "values, kinds and paths: universes defined in TLA+, real operations applied by the harness, laws / soundness predicates evaluated by TLC on the real results"},
+            {"name": "C", "path": "/verif/spec/Ops.tla /verif/spec/GenOps.tla /verif/spec/TraceOps.tla /verif/lib/engine_c.py /verif/harness/src/algebra.rs",
+             "serves_properties": [p for p in ids if CHECKS.get(p, {}).get("engine") == "C"],
+             "kind_free_text": "operators, function contracts and laws, search/grok, diagnostics, timezones: TLC-defined input spaces, real calls recorded by the harness, contract/law predicates evaluated by TLC"},
         ],
         "checks": checks,
         "notes": "exit codes: 0 held (KNOWN-FINDING lines for listed findings), 1 VIOLATION, 2 tool trouble. known findings: /verif/known_findings.json",
